@@ -20,8 +20,10 @@ static const a_cfg_t acfgs[] = {
 };
 #define NACFG ((int) (sizeof(acfgs) / sizeof(acfgs[0])))
 
-enum { D_NONE = 0, D_DELETE, D_DUP, D_SWAP, D_INJECT, D_APPDATA, D_NOFINRECOMP, D_DELETE2, D_CVSCHEME, D_CVSTALE, D_CVFLIP, D_NK };
-static const char *dname[] = { "none", "delete", "duplicate", "swap", "inject", "appdata-under-hs-keys", "delete-without-finished-recompute", "delete-two-consecutive", "certificateverify-scheme-rewritten", "certificateverify-of-another-handshake", "certificateverify-signature-bit-flipped" };
+/* D_INJECT_NST: a WELL-FORMED NewSessionTicket at position i (legal only after the handshake); D_PLAINFLIGHT (victim
+ * client): the whole protected flight travels unprotected, in the same plaintext record as the ServerHello */
+enum { D_NONE = 0, D_DELETE, D_DUP, D_SWAP, D_INJECT, D_APPDATA, D_NOFINRECOMP, D_DELETE2, D_CVSCHEME, D_CVSTALE, D_CVFLIP, D_INJECT_NST, D_PLAINFLIGHT, D_NK };
+static const char *dname[] = { "none", "delete", "duplicate", "swap", "inject", "appdata-under-hs-keys", "delete-without-finished-recompute", "delete-two-consecutive", "certificateverify-scheme-rewritten", "certificateverify-of-another-handshake", "certificateverify-signature-bit-flipped", "inject-well-formed-new-session-ticket", "flight-in-plaintext-behind-server-hello" };
 static const int inj_types[] = { 0, 1, 2, 4, 5, 8, 11, 13, 15, 20, 24, 254 };
 #define NINJ ((int) (sizeof(inj_types) / sizeof(inj_types[0])))
 typedef struct { int kind, i, t; } dev_t2;
